@@ -95,3 +95,33 @@ def rule_settings_plain(rep: Report, repo: Repo, rule: str) -> None:
     odd = [norm(n)[:60] for n in ast.walk(d2s) if isinstance(n, (ast.IfExp, ast.If, ast.BoolOp))]
     rep.check(not odd, rule, "cminx.config:dict_to_settings", "no conditional rewriting of options", f"dict_to_settings rewrites options: {odd}")
     rep.floor(rule, 6, "settings classes")
+
+
+def rule_no_option_rewrite(rep: Report, repo: Repo, rule: str) -> None:
+    """Between validation and use no option is rewritten: main() and dict_to_settings() hand the validated values on as they
+    are.  The one store there is is the exclude filter list (the union over all sources, C16); a `.strip()`, `.rstrip(sep)`,
+    `or default`, ... on a configured string changes the value in effect (a trigger ':keyword ' with its blank, a prefix that
+    ends in separator characters)."""
+    rep.rule(rule, "main() and dict_to_settings() store into no field of the settings objects except input.exclude_filters "
+                   "(<- all_contents() of the layered configuration)")
+    fields = set()
+    for cname in ("InputSettings", "OutputSettings", "LoggingSettings", "RSTSettings"):
+        fields |= {f.name for f in repo.cls(cname).own_fields}
+    n = 0
+    for mod, fname in (("cminx", "main"), ("cminx.config", "dict_to_settings")):
+        fn = repo.func(mod, fname)
+        for node in ast.walk(fn):
+            tgts = []
+            if isinstance(node, ast.Assign):
+                tgts = node.targets
+            elif isinstance(node, (ast.AugAssign, ast.AnnAssign)):
+                tgts = [node.target]
+            for t in tgts:
+                if isinstance(t, ast.Attribute) and t.attr in fields:
+                    n += 1
+                    val = getattr(node, "value", None)
+                    ok = t.attr == "exclude_filters" and val is not None and "all_contents()" in norm(val) and isinstance(node, ast.Assign)
+                    rep.check(ok, rule, f"{mod}:{fname}", norm(node)[:80],
+                              f"the option `{t.attr}` is rewritten after the configuration was validated: the value in effect is no longer "
+                              f"the one the sources supplied", witness="kwargs_doc_trigger_string: ':keyword '  /  -p 'v2.' with the default separator")
+    rep.ok(rule, "cminx:main, cminx.config:dict_to_settings", f"{n} store(s) into settings fields")
